@@ -39,6 +39,7 @@ CONFIG = {
                       f"{SMC}:SMCAlgorithm.estimate_normalizing_constant", f"{SMC}:ChangeTarget.run_csmc_for_normalizing_constant"],
     "reach_required": [f"{SP}:Marginal.random_weighted", f"{SP}:Marginal.estimate_logpdf"],
     "counters_required": ["rw_exact_weight_checked", "rw_address_checks", "est_exact_checked", "rw_reciprocal_mean_tests", "rw_sample_distribution_tests", "est_mean_tests"],
+    "counters_inconclusive": ["grey"],  # a statistical cell in the grey band (1e-9 <= stage-2 p < 1e-3) makes the run inconclusive
     "assumptions": [
         "float64 numpy/scipy reference densities; exact marginals by enumeration (<= 96 joint outcomes) or multivariate-normal closed form",
         "with an algorithm the statistical clause is only judged for selections whose unselected choices have no selected parent (otherwise the user-supplied algorithm's own target, not Marginal, decides the proposal of the retained particle)",
@@ -48,7 +49,7 @@ CONFIG = {
 }
 
 SELKINDS = ["all", "all-explicit", "closed", "leaves", "middle", "arbitrary"]
-ALGS = [("none", 0), ("impk", 2), ("none", 0), ("imp", 1), ("impk", 5), ("none", 0)]
+ALGS = [("none", 0), ("impk", 2), ("none", 0), ("imp", 1), ("impk", 5), ("none", 0), ("impkq", 3)]
 NET_HI = [5]
 
 
@@ -68,7 +69,7 @@ def exc_mech(e):
 
 
 def _algname(sc):
-    return "no-algorithm" if sc.alg == "none" else "algorithm"
+    return {"none": "no-algorithm", "impkq": "algorithm-with-proposal"}.get(sc.alg, "algorithm")
 
 
 def choose_selection(rng, net, kind):
@@ -115,7 +116,7 @@ def make_scen(rng, selkind, alg, K, family=None, max_outcomes=96, conv=None, req
     # ImportanceK's conditional run (used by Marginal.random_weighted with an algorithm) stacks whole
     # traces with a helper that only handles scalar leaves: most of those cells use programs whose
     # traces hold only scalars (flips / normals, flat addresses, one scalar argument per table entry)
-    scalar_leaves = alg == "impk" and rng.random() < 0.7
+    scalar_leaves = alg in ("impk", "impkq") and rng.random() < 0.7
     if scalar_leaves:
         conv = "scalar"
     for _ in range(500):
@@ -138,13 +139,24 @@ def make_scen(rng, selkind, alg, K, family=None, max_outcomes=96, conv=None, req
     convs = [False, True, True] + (["scalar"] if n_entries <= 40 else [])
     sc.conv = convs[int(rng.integers(len(convs)))] if conv is None else conv
     sc.model, sc.src = G.build(net, sc.conv)
+    # algorithm with an exact custom proposal over the unselected choices
+    sc.qspec = ()
+    if alg == "impkq":
+        if sc.unsel:
+            sc.qspec = G.random_qnet(rng, net, sc.unsel)
+        else:
+            sc.alg = "impk"
     return sc
+
+
+_CASE = [""]
 
 
 def describe(sc):
     return {
+        "case": _CASE[0],
         "net": sc.net.describe(), "selected": ["/".join(sc.net.nodes[i].addr) for i in sc.sel], "selection_kind": sc.selkind,
-        "unselected_influence_selected": not sc.closed, "algorithm": sc.alg, "K": sc.K,
+        "unselected_influence_selected": not sc.closed, "algorithm": sc.alg, "K": sc.K, "algorithm_proposal": [list(map(str, q)) for q in sc.qspec],
         "calling_convention": {False: "spread", True: "packed", "scalar": "scalar"}[sc.conv],
     }
 
@@ -185,17 +197,18 @@ def make_fn(sc, mode):
     keys_of = [G.addr_key(nd.addr) for nd in net.nodes]
     sc.trace_errors = []
 
-    def marginal_of(args, placeholder):
+    def marginal_of(args, placeholder, qparams):
         selection = make_selection(sc)
         if sc.alg == "none":
             return Marginal(sc.model, selection)
         T0 = Target(sc.model, args, G.constraint(net, sc.sel, placeholder))
-        alg = Importance(T0) if sc.alg == "imp" else ImportanceK(T0, None, sc.K)
+        q = G.proposal_class()(tuple(qparams), sc.qspec) if sc.alg == "impkq" else None
+        alg = Importance(T0) if sc.alg == "imp" else ImportanceK(T0, q, sc.K)
         return Marginal(sc.model, selection, alg)
 
-    def f(key, params, given):
+    def f(key, params, given, qparams):
         args = G.model_args(net, sc.conv, params)
-        mg = marginal_of(args, given)
+        mg = marginal_of(args, given, qparams)
         k1, k2 = jax.random.split(key)
         if mode == "rw":
             w, chm = mg.random_weighted(k1, *args)
@@ -217,12 +230,13 @@ def make_fn(sc, mode):
     return jax.jit(jax.vmap(f))
 
 
-def call_fn(fn, sc, params, given, keyseed, B):
+def call_fn(fn, sc, params, given, keyseed, B, qparams=()):
     import jax
     import jax.numpy as jnp
 
     keys = jax.random.split(jax.random.key(int(keyseed)), B)
-    out = fn(keys, [jnp.asarray(p) for p in params], [jnp.asarray(G.cast_value(sc.net, i, given[i])) for i in sc.sel])
+    out = fn(keys, [jnp.asarray(p) for p in params], [jnp.asarray(G.cast_value(sc.net, i, given[i])) for i in sc.sel],
+             [jnp.asarray(p) for p in qparams])
     return jax.tree_util.tree_map(np.asarray, out)
 
 
@@ -293,6 +307,7 @@ def exact_plan(ci, seed):
 
 
 def exact_cell(ctx, ci, B):
+    _CASE[0] = f"ex/{ci}"
     rng = ctx.child_rng(1, ci)
     selkind, alg, K = exact_plan(ci, ctx.seed)
     sc = make_scen(rng, selkind, alg, K)
@@ -300,12 +315,13 @@ def exact_cell(ctx, ci, B):
     sc.want_est = True
     params = G.random_params(rng, sc.net, B)
     placeholder = R.sample_batch(sc.net, params, rng)
+    qparams = G.random_qparams(rng, sc.net, sc.unsel, sc.qspec, B) if sc.qspec else []
     ctx.count("exact_cells")
     ctx.count(f"exact_cells[{selkind},{_algname(sc)}]")
     ctx.sample(describe(sc), limit=3)
     fn = make_fn(sc, "rw")
     try:
-        out = call_fn(fn, sc, params, placeholder, rng.integers(1 << 30), B)
+        out = call_fn(fn, sc, params, placeholder, rng.integers(1 << 30), B, qparams)
     except Exception as e:  # noqa: BLE001
         report_raise(ctx, sc, "random_weighted", e, params)
         return
@@ -401,6 +417,7 @@ def sel_index(sc, cards, vals):
 
 
 def stat_cell(ctx, si, N, reps):
+    _CASE[0] = f"st/{si}"
     rng = ctx.child_rng(2, si)
     mode, selkind, alg, K = stat_plan(si, ctx.seed)
     family = "gauss" if (mode == "est" and rng.random() < 0.35) else "disc"
@@ -418,12 +435,13 @@ def stat_cell(ctx, si, N, reps):
     draw0 = R.sample_batch(net, params1, rng)
     params = [np.repeat(p, N, axis=0) for p in params1]
     given = {i: np.repeat(np.asarray(draw0[i]), N, axis=0) for i in sc.sel}
+    qparams = [np.repeat(p, N, axis=0) for p in G.random_qparams(rng, net, sc.unsel, sc.qspec, 1)] if sc.qspec else []
     ctx.count(f"stat_cells[{mode}]")
     ctx.sample(dict(describe(sc), statistical=mode, keys=N * reps), limit=3)
     fn = make_fn(sc, mode)
 
     def draw(nrep):
-        return [call_fn(fn, sc, params, given, int(rng.integers(1 << 30)), N) for _ in range(nrep)]
+        return [call_fn(fn, sc, params, given, int(rng.integers(1 << 30)), N, qparams) for _ in range(nrep)]
 
     try:
         first = draw(reps)
@@ -516,6 +534,21 @@ def stat_cell(ctx, si, N, reps):
 # ------------------------------------------------------------------------------- entry
 
 
+def _replay_kind(ctx):
+    """In replay mode (./check C25 --replay file) only the witness's kind of cell is re-run; the
+    worker already restricts my_share() to the witness's case index."""
+    if not getattr(ctx, "replay", None):
+        return None
+    try:
+        import json
+
+        with open(ctx.replay) as f:
+            k = str(json.load(f).get("case", "")).split("/")[0]
+        return k if k in ("ex", "st") else None
+    except Exception:  # noqa: BLE001
+        return None
+
+
 def run(ctx):
     common.import_repo()
     R.selftest()
@@ -534,8 +567,13 @@ def run(ctx):
             order.append(("ex", ex[j]))
         if j < len(st):
             order.append(("st", st[j]))
-    for kind, idx in order:
-        if ctx.elapsed() > budget:
+    rk = _replay_kind(ctx)
+    for pos, (kind, idx) in enumerate(order):
+        if rk is not None and kind != rk:
+            continue
+        # the first exact and the first statistical cell of a shard always run (a loaded machine
+        # must not starve the required monitors); afterwards the time budget decides
+        if pos >= 2 and ctx.elapsed() > budget:
             ctx.count("cells_skipped_budget")
             continue
         if kind == "ex":
